@@ -85,6 +85,10 @@ type Path struct {
 	NUnknown     int
 	FuncsSeen    map[string]bool
 	Depth        int
+
+	local         *localCtx
+	NSummaries    int
+	NSummaryPaths int
 }
 
 func NewPath(s *smt.Solver, prefix []int32, maxSteps int64) *Path {
@@ -140,6 +144,9 @@ func (p *Path) eval(t *smt.Term) (uint64, bool) {
 func (p *Path) Decide(c *smt.Term) bool {
 	if c.IsConst() {
 		return c.U == 1
+	}
+	if p.local != nil {
+		return p.localDecide(c)
 	}
 	p.NDecisions++
 	b := p.B
@@ -243,6 +250,9 @@ func (p *Path) ForkN(n int) int {
 	if n <= 1 {
 		return 0
 	}
+	if p.local != nil {
+		panic(summaryAbort{"fork inside summary"})
+	}
 	var d int32
 	if p.replaying() {
 		d = p.Prefix[p.pos]
@@ -262,6 +272,9 @@ func (p *Path) ForkN(n int) int {
 
 // AssumeT restricts the path to states satisfying c.
 func (p *Path) AssumeT(c *smt.Term) {
+	if p.local != nil {
+		panic(summaryAbort{"assume inside summary"})
+	}
 	if c.IsConst() {
 		if c.U == 0 {
 			panic(pathAbort{abortInfeasible, "assume false"})
@@ -300,6 +313,9 @@ func (p *Path) AssumeT(c *smt.Term) {
 
 // AssertT checks that c holds on every state of the path.
 func (p *Path) AssertT(c *smt.Term, label string) {
+	if p.local != nil {
+		panic(summaryAbort{"assert inside summary"})
+	}
 	p.NAsserts++
 	if c.IsConst() {
 		if c.U == 1 {
